@@ -553,6 +553,10 @@ def same_value(a, b, depth=0):
         return AND(*[same_value(a[k], b[k], depth + 1) for k in ka]) if ka else 1
     if isinstance(a, enum.Enum) or isinstance(b, enum.Enum):
         return feq(a, b)
+    if isinstance(a, (_dt.date, _dt.time, _dt.timedelta, _SymFields)) or isinstance(b, (_dt.date, _dt.time, _dt.timedelta, _SymFields)):
+        # calendar values compare by value (instances of the clock stand-ins have an empty __dict__ and would look equal field by field)
+        r = a == b
+        return 0 if r is NotImplemented else T(r)
     if hasattr(a, "__dict__") and not isinstance(a, type) and depth < 6:
         if type(a) is not type(b):
             return 0
